@@ -9,7 +9,9 @@ MANIFEST = {
             "malformed_reply_at_most_reset, oversize_datagram_never_dispatched). Tie + search: the receive gate of the real code runs under "
             "ASan/UBSan at every log level on random / mutated / valid inputs for all three framings, and sequences of hostile datagrams are "
             "delivered to live endpoints (server idle / with an observation / with a partial Block1 body, client with an outstanding request) "
-            "followed by a canary request; a sanitizer abort, a handler call on rejected input or a failed canary is a concrete violation.",
+            "followed by a canary request; a sanitizer abort, a handler call on rejected input or a failed canary is a concrete violation. "
+            "The hostile-peer inputs of the block-wise code (C09's crcv/srcv2/xmit1 ops: inconsistent Block/Size options; never-written bytes seen by "
+            "running twice with different allocation poisons) and of the stream readers (C05's tcp/ws ops) run here as well, with the owners' models and oracles.",
     "note": "Partial: memory safety, use-after-free, uninitialised reads and UB of the compiled C are observed by sanitizers on the inputs run, not "
             "proved; readers outside the modelled decoder (block, observe, OSCORE, URI, WebSocket code) are exercised by the sequences and owned by "
             "C05/C09/C14/C16/C20's own no-overread theorems. Trusted: Lean kernel (+ propext, Classical.choice, Quot.sound), harnesses, generators, sim_core.h.",
@@ -44,7 +46,11 @@ RUN_KW = {"timeout": 600}
 def extract(ctx):
     from vlib import tables
     d = tables.extract_consts()
-    return ["Generated.Consts (COAP_DEFAULT_MTU=%d)" % d["COAP_DEFAULT_MTU"]]
+    out = ["Generated.Consts (COAP_DEFAULT_MTU=%d)" % d["COAP_DEFAULT_MTU"]]
+    for P in (_p9(), _p5()):                     # the borrowed model ops read the owners' regenerated tables
+        if hasattr(P, "extract"):
+            out += P.extract(ctx)
+    return out
 
 
 def harness(ctx):
@@ -56,7 +62,36 @@ def harness_seq(ctx):
     return simlib.build_sim_harness("hostile_seq")
 
 
-HARNESS_FOR_OP = {"hparse": harness, "hseq": harness_seq}
+def _p9():
+    import props.C09 as P9
+    return P9
+
+
+def _p5():
+    import props.C05 as P5
+    return P5
+
+
+# The readers behind the gate that other properties own are run here too, on their hostile-peer inputs only, with the owners'
+# harness, model ops and oracle (what a hostile peer can make the block-wise code and the stream readers do is C02's subject):
+#   crcv / srcv2 / xmit1 (props/C09.py gen_*_hostile): a server / client that sends inconsistent Block / Size options — the
+#     application must never be handed bytes nobody wrote (two runs with different allocation poisons must agree), no leak, no crash;
+#   tcp / ws (props/C05.py): byte streams incl. malformed frames and upgrade requests — no crash, no spin (per-line watchdog).
+BORROWED_C09 = ("crcv", "srcv2", "xmit1")
+BORROWED_C05 = ("tcp", "ws")
+HARNESS_FOR_OP = {"hparse": harness, "hseq": harness_seq,
+                  "crcv": lambda ctx: _p9().harness(ctx), "srcv2": lambda ctx: _p9().harness(ctx), "xmit1": lambda ctx: _p9().harness(ctx),
+                  "tcp": lambda ctx: _p5().harness(ctx), "ws": lambda ctx: _p5().harness(ctx)}
+
+
+def gen_borrowed(ctx, escalate=False):
+    P9, P5 = _p9(), _p5()
+    n = (1500 if ctx.thorough() else 300) * (2 if escalate else 1)
+    out = P9.gen_crcv_hostile(ctx.rng, n) + P9.gen_srcv_hostile(ctx.rng, n) + P9.gen_xmit1_hostile(ctx.rng, n // 2)
+    cov = dict(ctx.cov)
+    out += P5.gen_tcp(ctx, n, 8, 4) + P5.gen_ws(ctx, n // 2, 6, 4) + P5.gen_ws_empty_runs(ctx, 6)
+    ctx.cov.clear(); ctx.cov.update(cov)        # the owners' coverage notes belong to their own evidence
+    return out
 
 
 def hx(b):
@@ -93,6 +128,7 @@ def generate(ctx, escalate=False):
                     b = G.mutate(rng, b)
         out.append("hparse %s %d %s" % (proto, lvl, hx(b)))
     out += gen_sequences(ctx, (12000 if ctx.thorough() else 1500) * (2 if escalate else 1))
+    out += gen_borrowed(ctx, escalate)
     return out
 
 
@@ -287,6 +323,11 @@ def judge_seq(ctx, c):
 
 
 def judge(ctx, c):
+    op = c["input"].split(" ", 1)[0]
+    if op in BORROWED_C09:
+        return _p9().judge(ctx, c)
+    if op in BORROWED_C05:
+        return _p5().judge(ctx, c)
     i, m = c["impl"], c["model"]
     if i is None or i.startswith("crash"):
         return ("spec", "the real code aborted on this input: %s" % i)
@@ -301,11 +342,15 @@ def judge(ctx, c):
 
 def nontrivial(c):
     w = c["input"].split()
+    if w[0] in BORROWED_C09 or w[0] in BORROWED_C05:
+        return True
     return len(w[-1]) >= 8
 
 
 def classify(c):
     w = c["input"].split()
+    if w[0] in BORROWED_C09 or w[0] in BORROWED_C05:
+        return "borrowed:" + w[0]
     if w[0] == "hseq":
         return "seq:%s:%s" % (w[1], w[3])
     return "%s:lvl%s:%s" % (w[1], w[2], (c["model"] or "?").split()[0])
